@@ -53,8 +53,15 @@ def descriptions(tier):
     # 3. enums
     for vals in ((0,), (5,), (-1,), (0, 1), (5, 0), (-1, 7), (0, 1, 2), (255, 256, 65536), (2147483647, -2147483648)):
         out.append(("enum", [("enum", "E", tuple(("v%d" % i, v) for i, v in enumerate(vals)))]))
-    # enumerator values beyond the i32 the reflection schema reserves for them: parse tree only (C07), not C12
+    # integers beyond the fixed-width slots of the reflection schema (i32 enumerator values; u32 field ids, array
+    # sizes, service and method ids): the language itself puts no bound on them
     out.append(("enum-beyond-i32", [("enum", "E", (("v0", 9007199254740993), ("v1", 18446744073709551615)))]))
+    out.append(("enum-flags-32-bit", [("enum", "Flags", (("Off", 0), ("HighBit", 3000000000), ("All", 4294967295)))]))
+    S1 = ("struct", "S", (("a", 0, U(8), None, None),))
+    out.append(("field-id-beyond-u32", [("struct", "S", (("a", 4294967296, U(8), None, None), ("b", 1, U(16), None, None)))]))
+    out.append(("field-id-negative", [("struct", "S", (("a", -1, U(8), None, None), ("b", 0, U(16), None, None)))]))
+    out.append(("array-size-beyond-u32", [("struct", "S", (("arr", 0, ("arr", U(8), 4294967298), None, None),))]))
+    out.append(("service-ids-beyond-u32", [S1, ("service", "Svc", 4294967297, (("get", -2, "S", "S"),))]))
     # 4. bindings: rename x extension fields (every value form) x signal blocks
     forms = VALUE_FORMS if tier != "quick" else VALUE_FORMS[:9] + VALUE_FORMS[11:15] + VALUE_FORMS[16:19] + VALUE_FORMS[20:21]
     for rename in (None, "Ren"):
